@@ -67,6 +67,94 @@ Proof.
     rewrite N.mod_add by lia. reflexivity.
 Qed.
 
+(* ---- a single changed payload byte is always detected *)
+Lemma adler_go_fst : forall d a b, a < ADLER_MOD -> fst (adler_go a b d) = (a + bsum d) mod ADLER_MOD.
+Proof.
+  induction d as [|x d IH]; intros a b Ha; simpl.
+  - rewrite N.add_0_r. symmetry. apply N.mod_small. exact Ha.
+  - rewrite IH by (apply N.mod_lt; discriminate).
+    rewrite N.add_mod_idemp_l by discriminate. f_equal. lia.
+Qed.
+
+Lemma adler_go_bounds : forall d a b, a < ADLER_MOD -> b < ADLER_MOD ->
+  fst (adler_go a b d) < ADLER_MOD /\ snd (adler_go a b d) < ADLER_MOD.
+Proof.
+  induction d as [|x d IH]; intros a b Ha Hb; simpl; [auto|].
+  apply IH; apply N.mod_lt; discriminate.
+Qed.
+
+Lemma bsum_app a b : bsum (a ++ b) = bsum a + bsum b.
+Proof. induction a; simpl; lia. Qed.
+
+Lemma mod_shift n d : 0 < d -> d < ADLER_MOD -> (n + d) mod ADLER_MOD <> n mod ADLER_MOD.
+Proof.
+  intros H0 H1 E. unfold ADLER_MOD in *.
+  pose proof (N.div_mod n 65521 ltac:(discriminate)) as D1.
+  pose proof (N.div_mod (n + d) 65521 ltac:(discriminate)) as D2.
+  pose proof (N.mod_lt n 65521 ltac:(discriminate)).
+  rewrite E in D2. 
+  assert (65521 * ((n + d) / 65521) = 65521 * (n / 65521) + d) by lia.
+  assert ((n + d) / 65521 = n / 65521 \/ (n + d) / 65521 >= n / 65521 + 1 \/ (n + d) / 65521 + 1 <= n / 65521) by lia.
+  nia.
+Qed.
+
+Lemma adler32_low d : adler32 d mod 65536 = fst (adler_go 1 0 d).
+Proof.
+  unfold adler32. pose proof (adler_go_bounds d 1 0 ltac:(reflexivity) ltac:(reflexivity)) as [Ha Hb].
+  destruct (adler_go 1 0 d) as [a b]. simpl in *.
+  rewrite N.add_comm, N.mod_add by discriminate. apply N.mod_small. unfold ADLER_MOD in *. lia.
+Qed.
+
+Lemma adler32_bound d : adler32 d < 4294967296.
+Proof.
+  unfold adler32. pose proof (adler_go_bounds d 1 0 ltac:(reflexivity) ltac:(reflexivity)) as [Ha Hb].
+  destruct (adler_go 1 0 d) as [a b]. simpl in *. unfold ADLER_MOD in *. lia.
+Qed.
+
+Lemma le32_inj v w : v < 4294967296 -> w < 4294967296 -> le32 v = le32 w -> v = w.
+Proof.
+  intros Hv Hw E. unfold le32 in E. inversion E as [[E0 E1 E2 E3]].
+  pose proof (N.div_mod v 256 ltac:(discriminate)). pose proof (N.div_mod w 256 ltac:(discriminate)).
+  pose proof (N.div_mod (v/256) 256 ltac:(discriminate)). pose proof (N.div_mod (w/256) 256 ltac:(discriminate)).
+  pose proof (N.div_mod (v/65536) 256 ltac:(discriminate)). pose proof (N.div_mod (w/65536) 256 ltac:(discriminate)).
+  pose proof (N.div_mod (v/16777216) 256 ltac:(discriminate)). pose proof (N.div_mod (w/16777216) 256 ltac:(discriminate)).
+  assert (v / 65536 = v / 256 / 256) by (rewrite N.div_div by discriminate; reflexivity).
+  assert (w / 65536 = w / 256 / 256) by (rewrite N.div_div by discriminate; reflexivity).
+  assert (v / 16777216 = v / 65536 / 256) by (rewrite N.div_div by discriminate; reflexivity).
+  assert (w / 16777216 = w / 65536 / 256) by (rewrite N.div_div by discriminate; reflexivity).
+  assert (v / 16777216 < 256) by (apply N.div_lt_upper_bound; [discriminate|lia]).
+  assert (w / 16777216 < 256) by (apply N.div_lt_upper_bound; [discriminate|lia]).
+  rewrite (N.mod_small (v / 16777216)) in E3 by assumption.
+  rewrite (N.mod_small (w / 16777216)) in E3 by assumption.
+  lia.
+Qed.
+
+(* one changed payload byte is always detected *)
+Lemma adler_detects_single_byte_proof l1 x y l2 :
+  x < 256 -> y < 256 -> x <> y ->
+  verify_ok (l1 ++ y :: l2 ++ le32 (adler32 (l1 ++ x :: l2))) = false.
+Proof.
+  intros Hx Hy Hne.
+  replace (l1 ++ y :: l2 ++ le32 (adler32 (l1 ++ x :: l2)))
+     with ((l1 ++ y :: l2) ++ le32 (adler32 (l1 ++ x :: l2))) by (rewrite <- app_assoc; reflexivity).
+  set (p := l1 ++ x :: l2). set (q := l1 ++ y :: l2).
+  unfold verify_ok. rewrite app_length, le32_length.
+  replace (length q + 4 - 4)%nat with (length q + 0)%nat by lia.
+  rewrite firstn_app_2, skipn_app. simpl firstn. rewrite app_nil_r.
+  replace (length q + 0 - length q)%nat with 0%nat by lia.
+  rewrite Nat.add_0_r, skipn_all. cbn [skipn app].
+  destruct (bytes_eqb (le32 (adler32 q)) (le32 (adler32 p))) eqn:E; [|reflexivity].
+  exfalso. apply bytes_eqb_eq in E. apply le32_inj in E; try apply adler32_bound.
+  assert (Ea : fst (adler_go 1 0 q) = fst (adler_go 1 0 p)) by (rewrite <- !adler32_low, E; reflexivity).
+  rewrite !adler_go_fst in Ea by reflexivity.
+  unfold p, q in Ea. rewrite !bsum_app in Ea. simpl bsum in Ea.
+  destruct (N.lt_ge_cases x y) as [Hlt|Hge].
+  - apply (mod_shift (1 + (bsum l1 + (x + bsum l2))) (y - x)); [lia|unfold ADLER_MOD; lia|].
+    rewrite <- Ea. f_equal. lia.
+  - apply (mod_shift (1 + (bsum l1 + (y + bsum l2))) (x - y)); [lia|unfold ADLER_MOD; lia|].
+    rewrite Ea. f_equal. lia.
+Qed.
+
 (* ------------------------------------------------------------------ *)
 (* Part B: the generic protocol                                        *)
 
@@ -607,3 +695,49 @@ End BobProofs.
 Lemma async_defers_proof norm (p : proc state) pc p' r sv :
   proc_step state api ret (mutate norm) p pc = (p', r, sv) -> (0 < p_async p')%nat -> sv = None.
 Proof. apply async_defers_generic. Qed.
+
+(* ---- the pickle assumption is satisfiable *)
+Lemma cN_ok : codec_ok cN. Proof. intros x r. reflexivity. Qed.
+
+Lemma cBool_ok : codec_ok cBool. Proof. intros [|] r; reflexivity. Qed.
+
+Lemma cPair_ok {A B} (a : codec A) (b : codec B) : codec_ok a -> codec_ok b -> codec_ok (cPair a b).
+Proof. intros Ha Hb [x y] r. cbn. rewrite <- app_assoc, Ha, Hb. reflexivity. Qed.
+
+Lemma cOpt_ok {A} (a : codec A) : codec_ok a -> codec_ok (cOpt a).
+Proof. intros Ha [x|] r; cbn; [rewrite Ha|]; reflexivity. Qed.
+
+Lemma cList_ok {A} (a : codec A) : codec_ok a -> codec_ok (cList a).
+Proof.
+  intros Ha l r. cbn. rewrite Nat2N.id.
+  induction l as [|x l IH]; cbn; [reflexivity|].
+  rewrite <- app_assoc, Ha, IH. reflexivity.
+Qed.
+
+Lemma cMap_ok {T U} (f : T -> U) (g : U -> T) (c : codec U) :
+  (forall x, g (f x) = x) -> codec_ok c -> codec_ok (cMap f g c).
+Proof. intros Hgf Hc x r. cbn. rewrite Hc, Hgf. reflexivity. Qed.
+
+Lemma cKey_ok : codec_ok cKey. Proof. apply cList_ok, cN_ok. Qed.
+
+Lemma cVal_ok : codec_ok cVal. Proof. apply cOpt_ok, cList_ok, cN_ok. Qed.
+
+Lemma cAmap_ok {V} (v : codec V) : codec_ok v -> codec_ok (cAmap v).
+Proof. intros H. apply cList_ok, cPair_ok; [apply cKey_ok|exact H]. Qed.
+
+Lemma cJenk_ok : codec_ok cJenk.
+Proof.
+  apply cMap_ok; [intros []; reflexivity|].
+  repeat apply cPair_ok; try apply cAmap_ok; try apply cPair_ok;
+    try apply cVal_ok; try apply cN_ok; try apply cKey_ok.
+Qed.
+
+Lemma cState_ok : codec_ok cState.
+Proof.
+  apply cMap_ok; [intros []; reflexivity|].
+  repeat apply cPair_ok; try apply cAmap_ok; repeat apply cPair_ok;
+    try apply cVal_ok; try apply cN_ok; try apply cKey_ok; try apply cBool_ok; try apply cJenk_ok.
+Qed.
+
+Lemma ser_dec_enc s : ser_dec (seal (ser_enc s)) = Some s.
+Proof. unfold ser_dec, seal, ser_enc. rewrite cState_ok. reflexivity. Qed.
